@@ -2177,6 +2177,26 @@ class VM:
                 i += 2
             return "".join(out)
 
+        def substitution(args):
+            """The second argument of replace/replaceAll as a function
+            (matched, index, captures) -> replacement text: a script function
+            is called with (match, p1, ..., offset, string) and its result
+            converted to a string; anything else is a template string."""
+            value = args[1] if len(args) > 1 else UNDEFINED
+            if not (isinstance(value, JSFunction) or callable(value)):
+                template = to_str(value)
+                return lambda matched, index, captures=(): expand(
+                    template, matched, index, captures
+                )
+
+            def call_replacer(matched, index, captures=()):
+                groups = [UNDEFINED if c is None else c for c in captures]
+                return to_str(
+                    self._call_callback(value, [matched] + groups + [index, s])
+                )
+
+            return call_replacer
+
         def toLowerCase(*args):
             return s.lower()
 
@@ -2220,7 +2240,7 @@ class VM:
 
         def replace(*args):
             pattern = args[0] if args else UNDEFINED
-            replacement = to_str(args[1]) if len(args) > 1 else "undefined"
+            replacement = substitution(args)
 
             if isinstance(pattern, JSRegExp):
                 # Replace with regex using microjs.regex
@@ -2233,8 +2253,8 @@ class VM:
                     # (capture_count includes group 0)
                     def handle_replacement(match_result):
                         captures = [match_result[i] for i in range(1, capture_count)]
-                        return expand(
-                            replacement, match_result[0], match_result.index, captures
+                        return replacement(
+                            match_result[0], match_result.index, captures
                         )
 
                     # Symbol.replace: collect the matches through
@@ -2272,31 +2292,36 @@ class VM:
                 # Find first occurrence and replace
                 idx = s.find(search)
                 if idx >= 0:
-                    repl = expand(replacement, search, idx)
+                    repl = replacement(search, idx)
                     return s[:idx] + repl + s[idx + len(search) :]
                 return s
 
         def replaceAll(*args):
             pattern = args[0] if args else UNDEFINED
-            replacement = to_str(args[1]) if len(args) > 1 else "undefined"
 
             if isinstance(pattern, JSRegExp):
                 # replaceAll with regex requires global flag
                 if "g" not in pattern._flags:
                     raise JSTypeError("replaceAll called with a non-global RegExp")
-                return replace(pattern, replacement)
+                return replace(*args)
             else:
                 # String replaceAll - replace all occurrences
+                replacement = substitution(args)
                 search = to_str(pattern)
-                parts = []
-                end = 0
+                # find every occurrence first: a replacer function runs
+                # after the search is over
+                found = []
                 idx = s.find(search)
                 while idx >= 0:
-                    parts.append(s[end:idx])
-                    parts.append(expand(replacement, search, idx))
-                    end = idx + len(search)
+                    found.append(idx)
                     # an empty search string matches once at every position
                     idx = s.find(search, idx + max(1, len(search)))
+                parts = []
+                end = 0
+                for idx in found:
+                    parts.append(s[end:idx])
+                    parts.append(replacement(search, idx))
+                    end = idx + len(search)
                 parts.append(s[end:])
                 return "".join(parts)
 
